@@ -114,6 +114,73 @@ theorem build_merge_recovering (a b : STree) (ra rb r : Rd)
       have hty := htb (by simp [hv])
       simp [hv, hty]
 
+
+/-! ### the text of the error; observers -/
+
+theorem hop_cache_none (hu : Bool) (st : ErrSt) (h : Hop) (hc : st.cache = none) :
+    (hop hu false st h).cache = none := by
+  cases h <;> simp [hop, observeSt, hc]
+
+theorem foldl_hop_cache_none (hu : Bool) (hops : List Hop) (st : ErrSt) (hc : st.cache = none) :
+    (hops.foldl (hop hu false) st).cache = none := by
+  induction hops generalizing st with
+  | nil => simpa using hc
+  | cons h r ih => simp only [List.foldl_cons]; exact ih _ (hop_cache_none hu st h hc)
+
+/-- without memoisation the text names whatever the path field holds at the end -/
+theorem textPath_travel_noMemo (hu : Bool) (hops : List Hop) (e : GoErr) :
+    textPath (travel hu false hops e) = nodePath (travel hu false hops e).err := by
+  have := foldl_hop_cache_none hu hops { err := e, cache := none } rfl
+  unfold textPath travel
+  rw [this]
+
+theorem nodePath_wrapf (x : GoErr) : nodePath (.wrapf x) = nodePath x := by
+  simp [nodePath, asInternal]
+
+theorem foldl_hop_path (hops : List Hop) (st : ErrSt) (hi : isInterrupt true st.err = false) :
+    nodePath (hops.foldl (hop true false) st).err = (hopKeys hops).reverse ++ nodePath st.err
+    ∧ isInterrupt true (hops.foldl (hop true false) st).err = false := by
+  induction hops generalizing st with
+  | nil => simp [hopKeys, hi]
+  | cons h r ih =>
+    simp only [List.foldl_cons]
+    cases h with
+    | wrap k =>
+      have h1 : isInterrupt true (hop true false st (.wrap k)).err = false := by
+        simp [hop, isInterrupt_wrapNode, hi]
+      have := ih _ h1
+      refine ⟨?_, this.2⟩
+      rw [this.1]
+      simp [hop, hopKeys, nodePath_wrapNode k st.err hi]
+    | observe =>
+      have h1 : isInterrupt true (hop true false st .observe).err = false := by
+        simp [hop, observeSt, hi]
+      have := ih _ h1
+      refine ⟨?_, this.2⟩
+      rw [this.1]; simp [hop, observeSt, hopKeys]
+    | rewrap =>
+      have h1 : isInterrupt true (hop true false st .rewrap).err = false := by
+        simp [hop, observeSt, isInterrupt, hi]
+      have := ih _ h1
+      refine ⟨?_, this.2⟩
+      rw [this.1]; simp [hop, observeSt, hopKeys, nodePath_wrapf]
+
+theorem errorsIs_foldl_hop (memo : Bool) (hops : List Hop) (st : ErrSt) (t : Nat) :
+    errorsIs true (hops.foldl (hop true memo) st).err t = errorsIs true st.err t := by
+  induction hops generalizing st with
+  | nil => rfl
+  | cons h r ih =>
+    simp only [List.foldl_cons]
+    rw [ih]
+    cases h with
+    | wrap k => simp [hop, errorsIs_wrapNode]
+    | observe => simp only [hop, observeSt]; split <;> rfl
+    | rewrap => simp only [hop, observeSt]; split <;> simp [errorsIs]
+
+theorem errorsIs_travel (memo : Bool) (hops : List Hop) (e : GoErr) (t : Nat) :
+    errorsIs true (travel true memo hops e).err t = errorsIs true e t := by
+  unfold travel; rw [errorsIs_foldl_hop]
+
 /-! ### the context of the run ends -/
 
 theorem errorsIs_loopCtxError (rce : Bool) (c : CtxEnd) (t : Nat) :
